@@ -331,8 +331,13 @@ def report_violations(chk, lock, runs, verdicts, source):
         sig = {"lock": lock, "code": b["code"], "op": fn}
         what = "%s %s: %s (threads=%d progs=%s, source=%s, %d events)" % (
             lock, b["code"], describe(b["code"], fn, r), len(progs), json.dumps(progs, separators=(",", ":")), source, len(r["events"]))
+        if r.get("probe"):
+            chk.violate(dict(sig, op="probe:%s:%s" % (r["probe"], fn)), what,
+                        {"mode": "probe", "scenario": r["probe"], "code": b["code"], "trace": r["events"], "end": r["end"]})
+            continue
         chk.violate(sig, what, {"kind": lock, "progs": progs, "sched": r["end"]["sched"], "code": b["code"],
-                                "source": source, "trace": r["events"][-60:], "end": r["end"]})
+                                "source": source, "trace": r["events"][-60:], "end": r["end"],
+                                "release_build": "release build" in source})
 
 
 def describe(code, fn, r):
@@ -687,12 +692,14 @@ class LockCheck:
         mode = spec.get("mode") or ("random" if "runs" in spec else "explore")
         return run_sched(bindir, mode, path, timeout=3000)
 
-    def run(self, tier, tours, configs, configs_if_differs, specs, tour_budget=None, stress=None, rare_tours=()):
+    def run(self, tier, tours, configs, configs_if_differs, specs, tour_budget=None, stress=None, rare_tours=(),
+            release_specs=(), probe_scenarios=()):
         chk = core.Check(self.pid, tier, "model_checking")
         bindir = core.cargo_build(bins=["sched"])
         all_ords, drift, tour_stats = {}, [], []
         actions_confirmed = {}
         graphs = {}
+        first_tour = None
         self.nontrivial = 0
 
         pending = []      # (runs, source): judged together at the end (one JVM start per 150k events)
@@ -724,6 +731,8 @@ class LockCheck:
             mp, ms = tour_budget or (None, None)
             graphs[name] = g
             paths, covered, total = transition_tour(g, max_paths=mp, max_steps=ms)
+            if first_tour is None:
+                first_tour = (name, g, paths, progs)
             runs, divs, ords, agreed = replay_paths(chk, bindir, self.bind, g, paths, self.PROGS[progs], "%s_%s" % (self.lock, name))
             for k, v in ords.items():
                 all_ords.setdefault(k, set()).update(v)
@@ -841,13 +850,46 @@ class LockCheck:
             if runs:
                 chk.sample({"source": tag, "progs": spec["progs"], "sched": runs[-1]["end"]["sched"]})
 
+        # 4a. the same real code built WITHOUT debug assertions / overflow checks (profile release): the
+        #     first tour again, step by step, selected explorations, a short stress.  Code that only
+        #     exists in one profile (debug_assert!(side effect), cfg(debug_assertions)) shows here.
+        if release_specs or first_tour:
+            t0 = time.time()
+            bindir_rel = core.cargo_build(bins=["sched"], release=True)
+            rel = {"build_s": round(time.time() - t0, 1)}
+            if first_tour:
+                name, g, paths, progs = first_tour
+                runs, divs, _, _ = replay_paths(chk, bindir_rel, self.bind, g, paths, self.PROGS[progs], "%s_%s_rel" % (self.lock, name))
+                rel["tour"] = {"config": name, "paths": len(paths), "divergent_paths": len(divs)}
+                core.log("release build: tour %s replayed, %d divergent of %d paths" % (name, len(divs), len(paths)))
+                for d in divs[:3]:
+                    drift.append({"config": name + " (release build)", **{k: d[k] for k in ("run", "k", "edge", "why")}})
+                judge_and_report(runs, "tour_rel", "B1 tour of %s_MC %s (release build)" % (self.prefix, name))
+            rel["exploration"] = []
+            for tag, spec in release_specs:
+                spec = dict(spec, seed=chk.seed, kind=self.lock, snap=True)
+                spec.pop("graph", None)
+                spec["weak"] = max(1, spec.get("weak", 0))
+                spec.setdefault("max_secs", 3 if tier == "quick" else 20)
+                runs, info = self.explore(chk, bindir_rel, spec, tag + "_rel")
+                rel["exploration"].append({"tag": tag, "runs": len(runs), "complete_within_bound": info.get("complete")})
+                core.log("release build: explore %s: %d runs" % (tag, len(runs)))
+                judge_and_report(runs, tag + "_rel", "exploration %s (release build)" % tag)
+            chk.extra["release_build"] = rel
+        else:
+            bindir_rel = None
+
+        # 4a'. no-libc probe: tiny-std's OWN threads (thread::spawn, feature `threaded`) with the real locks
+        if probe_scenarios:
+            runs = self.probe(chk, probe_scenarios)
+            judge_and_report(runs, "probe", "P1 no-libc probe syncp")
         judge_pending()
 
         # 4b. algorithm level: every recorded execution (any programs, up to 4 threads) must be a behaviour
         #     of the algorithm-level specification (<Prefix>Trace.tla); what the model cannot follow is drift
         t0 = time.time()
         # (the tour replays were already compared step by step by B1 and are left out here)
-        sel = [r for r in pending if not r["source"].startswith("B1 ")]
+        sel = [r for r in pending if not r["source"].startswith(("B1 ", "P1 "))]
         tot = sum(len(r["events"]) + 1 for r in sel)
         cap = 150000 if tier == "quick" else 1200000
         if tot > cap:
@@ -870,6 +912,9 @@ class LockCheck:
         # 5. hook-free binding: the real lock on the real kernel futex + FutexSys scenarios, judged by SyncStress.tla
         if stress:
             self.stress(chk, bindir, dict(stress, kind=self.lock, seed=chk.seed))
+            if bindir_rel:
+                self.stress(chk, bindir_rel, dict(stress, kind=self.lock, seed=chk.seed, scenarios=False,
+                                                  sections=max(500, stress["sections"] // 2)), key="real_futex_stress_release_build")
         chk.nontrivial = self.nontrivial
         chk.rule = self.rule
         chk.extra["transition_tour"] = tour_stats
@@ -881,7 +926,33 @@ class LockCheck:
         chk.assumptions = self.assumptions
         return chk.finish()
 
-    def stress(self, chk, bindir, spec):
+    def probe(self, chk, scenarios, release=False):
+        """Runs of probe/syncp (one process per scenario) as judge-able executions."""
+        d = core.cargo_build(template="probe/syncp", bins=["syncprobe"], release=release)
+        runs = []
+        for sc in scenarios:
+            p = core.run_cmd([os.path.join(d, "syncprobe"), sc], timeout=60, check=False)
+            evs = []
+            for line in p.stdout.splitlines():
+                try:
+                    evs.append(json.loads(line))
+                except ValueError:
+                    pass
+            evs.sort(key=lambda e: e.get("tk", 0))
+            end = [e for e in evs if e["ev"] == "end"]
+            if p.returncode in (2, 3):
+                raise core.ToolError("syncprobe %s could not run (rc=%s): %s" % (sc, p.returncode, p.stderr[-500:]))
+            if not end:
+                # the process died (signal / abort) before its end event: data, not a tool error
+                evs.append({"ev": "panic", "t": 0, "msg": "probe process ended with status %s before its end event" % p.returncode})
+                end = [{"ev": "end", "blocked": [], "done": [], "cut": False}]
+            runs.append({"reset": {"ev": "reset", "run": len(runs), "kind": self.lock, "progs": [["probe:" + sc]]},
+                         "events": [e for e in evs if e["ev"] != "end"], "end": dict(end[0], sched=[]), "probe": sc})
+        chk.extra["no_libc_probe"] = {"scenarios": list(scenarios), "runs": len(runs)}
+        core.log("no-libc probe: %d scenarios run" % len(runs))
+        return runs
+
+    def stress(self, chk, bindir, spec, key="real_futex_stress"):
         path = os.path.join(chk.work, "stress.json")
         with open(path, "w") as f:
             json.dump(spec, f)
@@ -911,7 +982,7 @@ class LockCheck:
         chk.add_tlc(res)
         j = j[0]
         chk.evaluations += j["sections"] + len(rest)
-        chk.extra["real_futex_stress"] = {"threads": spec["threads"], "sections_per_thread": spec["sections"], "sections_judged": j["sections"],
+        chk.extra[key] = {"threads": spec["threads"], "sections_per_thread": spec["sections"], "sections_judged": j["sections"],
                                           "write_sections": j["writes"], "futex_scenario_events": len(rest), "hang": end[0]["hang"],
                                           "wall_s": round(time.time() - t0, 1), "rejected": len(j["bad"])}
         core.log("stress: %d sections, %d futex scenario events judged in %.1fs, %d rejected" % (j["sections"], len(rest), time.time() - t0, len(j["bad"])))
@@ -998,6 +1069,14 @@ class LockCheck:
 
     def replay(self, path):
         rp = json.load(open(path))["replay"]
+        if rp.get("mode") == "probe":
+            chk = core.Check(self.pid, "replay", "model_checking")
+            runs = self.probe(chk, [rp["scenario"]])
+            v = judge_runs(chk, runs, "replay")
+            for e in runs[0]["events"]:
+                print(json.dumps(e, separators=(",", ":")))
+            print("REPRODUCED: %s" % v[0]["code"] if v else "not reproduced (recorded: %s)" % rp.get("code"))
+            return 1 if v else 0
         if rp.get("mode") == "real":
             chk = core.Check(self.pid, "replay", "model_checking")
             bindir = core.cargo_build(bins=["sched"])
@@ -1006,7 +1085,7 @@ class LockCheck:
                 print("REPRODUCED:", v.what)
             return 1 if chk.violations else 0
         chk = core.Check(self.pid, "replay", "model_checking")
-        bindir = core.cargo_build(bins=["sched"])
+        bindir = core.cargo_build(bins=["sched"], release=bool(rp.get("release_build")))
         plans = os.path.join(chk.work, "replay_plan.ndjson")
         with open(plans, "w") as f:
             f.write(json.dumps({"run": 0, "kind": rp["kind"], "progs": rp["progs"], "sched": rp["sched"], "snap": False}) + "\n")
